@@ -221,3 +221,220 @@ Example C10_clause_snapshot_bound_needed :
   lsm_wf_b w_ss = true /\ step_admissible_b w_ss st = false
   /\ visible (all_entries w_ss) MAX_SEQ xa = Some [1] /\ visible (all_entries w') MAX_SEQ xa = None.
 Proof. exact clause_snapshot_bound_needed. Qed.
+
+(** * What triggers compactions ([model/Pick.v]): size scores and seek statistics *)
+From Coq Require Import ZArith.
+From RainVerif Require Import Params.
+From RainVerif.model Require Import Bytes Key Version Pick.
+From RainVerif.proofs Require Import PickProofs.
+Open Scope N_scope.
+
+(** * The definitions used below *)
+
+Example C10_pick_num_levels : N.to_nat MAX_NUM_LEVELS = 7%nat /\ L0_COMPACTION_TRIGGER = 4.
+Proof. split; reflexivity. Qed.
+
+(** a score is a fraction (numerator, denominator); [score_gtb a b]: [a] is strictly greater *)
+Example C10_pick_score_gtb_def : forall a b,
+  score_gtb a b = true <-> fst b * snd a < fst a * snd b.
+Proof. exact score_gtb_true. Qed.
+
+(** the file a sample on [k] charges: the youngest of at least two files that may hold [k] *)
+Example C10_pick_charged_def : forall v k,
+  charged v k = match files_with_key v k with
+                | (f, level) :: _ :: _ => Some (f, level)
+                | _ => None
+                end.
+Proof. reflexivity. Qed.
+
+Example C10_pick_read_sample_charged : forall v st k,
+  read_sample v st k = match charged v k with
+                       | Some (f, level) => update_stats st f level
+                       | None => (st, false)
+                       end.
+Proof. exact read_sample_eq. Qed.
+
+(** the number of samples among [keys] that charge file number [n] *)
+Example C10_pick_charges_def : forall v n keys,
+  charges v n keys =
+  length (filter (fun k => match charged v k with
+                           | Some (f, _) => fm_num f =? n
+                           | None => false
+                           end) keys).
+Proof. reflexivity. Qed.
+
+(** * T1: the chosen level is the first level with the maximal score *)
+
+Theorem C10_pick_best_level_maximal : forall v,
+  (size_compaction_level v < N.to_nat MAX_NUM_LEVELS)%nat
+  /\ (forall l, (l < N.to_nat MAX_NUM_LEVELS)%nat ->
+        score_gtb (level_score v l) (level_score v (size_compaction_level v)) = false)
+  /\ (forall l, (l < size_compaction_level v)%nat ->
+        score_gtb (level_score v (size_compaction_level v)) (level_score v l) = true).
+Proof. exact best_level_maximal. Qed.
+Print Assumptions C10_pick_best_level_maximal.
+
+(** * T2: a size compaction is required exactly when some level is at or over its budget *)
+
+Theorem C10_pick_requires_size_iff : forall v,
+  requires_size_compaction v = true <->
+  exists l, (l < N.to_nat MAX_NUM_LEVELS)%nat
+            /\ ((l = O /\ (4 <= length (level_files v 0))%nat)
+                \/ ((1 <= l)%nat /\ max_bytes_for_level l <= sum_sizes (level_files v l))).
+Proof. exact requires_size_iff. Qed.
+Print Assumptions C10_pick_requires_size_iff.
+
+Theorem C10_pick_max_bytes_pos : forall l, 0 < max_bytes_for_level l.
+Proof. exact max_bytes_pos. Qed.
+Print Assumptions C10_pick_max_bytes_pos.
+
+(** * T3: the recorded level is the level the recorded file lives at *)
+
+Theorem C10_pick_files_with_key_in : forall v k f level,
+  In (f, level) (files_with_key v k) -> In f (level_files v level).
+Proof. exact files_with_key_in. Qed.
+Print Assumptions C10_pick_files_with_key_in.
+
+(** the invariant over one sample, from any state *)
+Theorem C10_pick_read_sample_charged_ok : forall v st k,
+  (forall n l, ss_to_compact st = Some (n, l) ->
+               exists f, In f (level_files v l) /\ fm_num f = n) ->
+  (forall n l, ss_to_compact (fst (read_sample v st k)) = Some (n, l) ->
+               exists f, In f (level_files v l) /\ fm_num f = n).
+Proof. exact read_sample_charged_ok. Qed.
+Print Assumptions C10_pick_read_sample_charged_ok.
+
+Theorem C10_pick_charged_file_level_consistent : forall v keys b n l,
+  In (b, Some (n, l)) (read_samples v (ss_init v) keys) ->
+  exists f, In f (level_files v l) /\ fm_num f = n.
+Proof. exact charged_file_level_consistent. Qed.
+Print Assumptions C10_pick_charged_file_level_consistent.
+
+(** * T4: the first trigger sticks; [true] is answered only at the moment it is set *)
+
+Theorem C10_pick_first_trigger_sticks_step : forall v st k x,
+  ss_to_compact st = Some x ->
+  ss_to_compact (fst (read_sample v st k)) = Some x /\ snd (read_sample v st k) = false.
+Proof. exact first_trigger_sticks_step. Qed.
+Print Assumptions C10_pick_first_trigger_sticks_step.
+
+Theorem C10_pick_first_trigger_sticks : forall v keys st x,
+  ss_to_compact st = Some x ->
+  Forall (fun a => a = (false, Some x)) (read_samples v st keys).
+Proof. exact first_trigger_sticks. Qed.
+Print Assumptions C10_pick_first_trigger_sticks.
+
+Theorem C10_pick_answer_true_sets : forall v st k,
+  snd (read_sample v st k) = true ->
+  ss_to_compact st = None
+  /\ exists f level, charged v k = Some (f, level)
+                     /\ ss_to_compact (fst (read_sample v st k)) = Some (fm_num f, level).
+Proof. exact answer_true_sets. Qed.
+Print Assumptions C10_pick_answer_true_sets.
+
+Theorem C10_pick_answer_false_keeps : forall v st k,
+  snd (read_sample v st k) = false ->
+  ss_to_compact (fst (read_sample v st k)) = ss_to_compact st.
+Proof. exact answer_false_keeps. Qed.
+Print Assumptions C10_pick_answer_false_keeps.
+
+Theorem C10_pick_at_most_one_trigger : forall v keys st,
+  (length (filter fst (read_samples v st keys)) <= 1)%nat.
+Proof. exact at_most_one_trigger. Qed.
+Print Assumptions C10_pick_at_most_one_trigger.
+
+(** * T5: a key fewer than two files may hold charges nothing *)
+
+Theorem C10_pick_needs_two_files : forall v st k,
+  (length (files_with_key v k) < 2)%nat -> read_sample v st k = (st, false).
+Proof. exact needs_two_files. Qed.
+Print Assumptions C10_pick_needs_two_files.
+
+(** * T6: a file is never scheduled by fewer than 100 charges *)
+
+Theorem C10_pick_initial_allowed_seeks_ge : forall size, 100 <= initial_allowed_seeks size.
+Proof. exact initial_allowed_seeks_ge. Qed.
+Print Assumptions C10_pick_initial_allowed_seeks_ge.
+
+(** the sample that records file [n] is at least the 100th sample charging that very file *)
+Theorem C10_pick_trigger_needs_100_charges : forall v keys i n l,
+  nth_error (read_samples v (ss_init v) keys) i = Some (true, Some (n, l)) ->
+  (100 <= charges v n (firstn (S i) keys))%nat.
+Proof. exact trigger_needs_100_charges. Qed.
+Print Assumptions C10_pick_trigger_needs_100_charges.
+
+Theorem C10_pick_no_trigger_before_100 : forall v keys,
+  (length keys < 100)%nat ->
+  Forall (fun a => a = (false, None)) (read_samples v (ss_init v) keys).
+Proof. exact no_trigger_before_100. Qed.
+Print Assumptions C10_pick_no_trigger_before_100.
+
+(** the same with the uniqueness of file numbers of [version_wf] as a hypothesis (not needed) *)
+Theorem C10_pick_no_trigger_before_100_wf : forall v keys,
+  NoDup (map fm_num (concat v)) ->
+  (length keys < 100)%nat ->
+  Forall (fun a => fst a = false) (read_samples v (ss_init v) keys).
+Proof. exact no_trigger_before_100_wf. Qed.
+Print Assumptions C10_pick_no_trigger_before_100_wf.
+
+(** * T7: runs of the model *)
+
+(** a key in a level-1 file (number 5) and a level-2 file (number 3) *)
+Example C10_pick_ex_version :
+  pk_v = [[]; [mkFM 5 1000 (mkIKey [97] 9 OP_PUT) (mkIKey [99] 8 OP_PUT)];
+          [mkFM 3 2000 (mkIKey [97] 3 OP_PUT) (mkIKey [99] 2 OP_PUT)]; []; []; []; []]
+  /\ pk_key = mkIKey [98] 20 OP_PUT.
+Proof. split; reflexivity. Qed.
+
+Example C10_pick_ex_files_with_key :
+  files_with_key pk_v pk_key = [(pk_young, 1%nat); (pk_old, 2%nat)].
+Proof. exact pk_files_with_key. Qed.
+
+Example C10_pick_ex_99_samples_no_trigger :
+  read_samples pk_v (ss_init pk_v) (repeat pk_key 99) = repeat (false, None) 99.
+Proof. exact pk_99_samples_no_trigger. Qed.
+
+Example C10_pick_ex_100th_sample_triggers :
+  skipn 99 (read_samples pk_v (ss_init pk_v) (repeat pk_key 101))
+  = [(true, Some (5, 1%nat)); (false, Some (5, 1%nat))].
+Proof. exact pk_100th_sample_triggers. Qed.
+
+Example C10_pick_ex_single_file_never_triggers :
+  files_with_key pk_v1 pk_key = [(pk_young, 1%nat)]
+  /\ read_samples pk_v1 (ss_init pk_v1) (repeat pk_key 300) = repeat (false, None) 300.
+Proof. exact pk_single_file_never_triggers. Qed.
+
+Example C10_pick_ex_allowed_seeks :
+  initial_allowed_seeks 1000 = 100 /\ initial_allowed_seeks 16384000 = 1000.
+Proof. exact pk_allowed_seeks. Qed.
+
+(** four level-0 files: level 0, required; three: not required *)
+Example C10_pick_ex_l0_trigger :
+  map (@length fmeta) pk_v_l0 = [4; 0; 0; 0; 0; 0; 0]%nat
+  /\ level_score pk_v_l0 0 = (1, 1) /\ size_compaction_level pk_v_l0 = O
+  /\ requires_size_compaction pk_v_l0 = true.
+Proof. split; [reflexivity|exact pk_l0_trigger]. Qed.
+
+Example C10_pick_ex_l0_three_files_no_trigger :
+  level_score pk_v_l0_3 0 = (0, 1) /\ requires_size_compaction pk_v_l0_3 = false.
+Proof. exact pk_l0_three_files_no_trigger. Qed.
+
+(** level 1 at 9 MiB of 10, level 2 at 105 MiB of 100: level 2 wins *)
+Example C10_pick_ex_l2_wins :
+  level_score pk_v_l2 1 = (9437184, 10485760)
+  /\ level_score pk_v_l2 2 = (110100480, 104857600)
+  /\ score_gtb (level_score pk_v_l2 2) (level_score pk_v_l2 1) = true
+  /\ size_compaction_level pk_v_l2 = 2%nat
+  /\ requires_size_compaction pk_v_l2 = true.
+Proof. exact pk_l2_wins. Qed.
+
+(** the level-0 score is an integer quotient (as in the code): seven level-0 files score 1 *)
+Example C10_pick_ex_l0_integer_quotient :
+  level_score pk_v_l0_7 0 = (1, 1) /\ size_compaction_level pk_v_l0_7 = 1%nat.
+Proof. exact pk_l0_integer_quotient. Qed.
+
+(** equal scores: the first level stays *)
+Example C10_pick_ex_tie_first_level :
+  score_gtb (level_score pk_v_tie 2) (level_score pk_v_tie 1) = false
+  /\ size_compaction_level pk_v_tie = 1%nat.
+Proof. exact pk_tie_first_level. Qed.
